@@ -446,6 +446,7 @@ func (s *Sim) clientExit(rs *rpcState) {
 	rs.nClient--
 	if rs.nClient <= 0 && !rs.clientEnded {
 		rs.clientEnded = true
+		s.noteStep(&s.stats.CEndStep, rs.r.ID)
 	}
 	s.liveActors--
 	s.mu.Unlock()
@@ -963,7 +964,18 @@ func (s *Sim) handlerExit(rs *rpcState, err error, resp proto.Message) {
 	s.mu.Lock()
 	rs.handlerDone++
 	s.handlersLive--
+	s.noteStep(&s.stats.HReturnStep, rs.r.ID)
 	s.mu.Unlock()
+}
+
+// noteStep records the current scheduler step for call id (first occurrence).
+func (s *Sim) noteStep(list *[]int, id int) {
+	for len(*list) <= id {
+		*list = append(*list, 0)
+	}
+	if (*list)[id] == 0 {
+		(*list)[id] = s.step
+	}
 }
 
 func (s *Sim) handlerRecheck(rs *rpcState) { s.recheck(rs, 'h', 0) }
